@@ -1,4 +1,47 @@
 import Driver.Common
+import AnyioModel.Sync.Semaphore
 
-/-- placeholder driver: replies `unimplemented` to every request -/
-def main : IO Unit := Driver.serve () (fun s _ => (s, "unimplemented"))
+namespace Driver.Sem
+open AnyioModel.Sync.Semaphore
+
+def outStr : Out → String
+  | .susp => "susp"
+  | .ret => "ret"
+  | .wouldBlock => "wouldblock"
+  | .valueError => "valueerror"
+  | .cancelled => "cancelled"
+  | .env => "env"
+
+def parseOptNat (s : String) : Option (Option Nat) :=
+  if s = "-" then some none else (s.toNat?).map some
+
+def parseEv : List String → Option Ev
+  | ["acquire", t, pre] => do some (.acquire (← t.toNat?) (← Driver.parseBool pre))
+  | ["acquire_nowait", t] => do some (.acquireNowait (← t.toNat?))
+  | ["release", t] => do some (.release (← t.toNat?))
+  | ["step", t] => do some (.step (← t.toNat?))
+  | ["fc", t] => do some (.fc (← t.toNat?))
+  | ["mc", t] => do some (.mc (← t.toNat?))
+  | _ => none
+
+/-- requests: `new <fast 0|1> <initial> <max|->`, `obs`, or an event -/
+def handle (s : State) : List String → State × String
+  | ["new", f, v, m] =>
+    match Driver.parseBool f, v.toNat?, parseOptNat m with
+    | some b, some v, some m => (init b v m, "ok")
+    | _, _, _ => (s, "bad-op")
+  | ["obs"] => (s, s!"value={s.value} waiters={s.waiters.length}")
+  | ["skip"] => (s, "skipped")
+  | ["ghost"] =>
+    (s, s!"holders={s.holders.length} infl={s.infl.length} extra={s.extra} lost={s.lost}")
+  | ws =>
+    match parseEv ws with
+    | none => (s, "bad-op")
+    | some e =>
+      match step s e with
+      | none => (s, "DISABLED")
+      | some (s', o) => (s', outStr o)
+
+end Driver.Sem
+
+def main : IO Unit := Driver.serve (AnyioModel.Sync.Semaphore.init false 0 none) Driver.Sem.handle
